@@ -12,9 +12,9 @@ from gen import Gen
 from common import cerberus
 from cerberus import TypeDefinition
 
-LEVEL = "exploration"
-COQ_FILES = []
-FACT_GROUPS = []
+LEVEL = "proof"
+COQ_FILES = ['theories/Model/Validate.v', 'theories/Proofs/ChildProofs.v', 'theories/Properties/C16.v']
+FACT_GROUPS = ['F6', 'F21']
 ALLOWED_AXIOMS = []
 TRUSTED_BASE = [
     "Coq 8.16.1 kernel; Print Assumptions: closed under the global context",
